@@ -20,6 +20,11 @@ long runs of small value - bare, with one and with ten leading zeros, as epoch, 
 it, as revision (12 templates) go through the acceptance oracle; the same runs, as str and (value permitting) as int,
 are assigned to epoch, upstream_version and debian_revision of two start versions (all histories of length 1; length 2
 over the bare runs followed by another run or an ordinary step), checked by the assignment model.
+
+Beyond the small scope (signatures ladder/..., size/..., deep/...): the count ladders of C03's generator (n runs, n hyphens,
+n colons; n in 1..40 and 63..1001) - every variant and the base with one foreign character at five positions through the
+acceptance oracle, the laddered part assigned / assigned invalidly / rolled back; one run of 997 .. 65 537 (thorough:
+262 145) characters in every position; all assignment histories of length <= 5 over 8 assignments (four of them refused).
 """
 import copy
 import itertools
@@ -37,7 +42,9 @@ RULE = ("Engine B: states = strings visited in the trie walk (every string of le
         "epoch or a revision, rejected strings made of version-alphabet characters only (rejected for structure), and "
         "histories whose last assignment is applied to an object that has already rolled back a rejected one; "
         "numeric boundaries: one state / transition / trace per (template, digit run) and per assignment history as "
-        "above; such a history is also non-trivial when it assigns a digit run whose value is >= 2**31")
+        "above; such a history is also non-trivial when it assigns a digit run whose value is >= 2**31; ladders / sizes "
+        "(beyond the small scope): one state / transition / trace per generated string and per assignment history of a "
+        "(family, count) or (position, run length); deep histories: as the other assignment histories")
 BUDGET = {"quick": 240, "thorough": 3000}
 
 SYMBOLS = ["0", "1", "a", ".", "+", "~", "-", ":", " ", "\n", "_", "é", "٣"]
@@ -109,6 +116,25 @@ def bounds(tier):
                                       "checked after every step and the original of a copy checked to be untouched"
                                       % ("2 from %r and 1 from the other starts" % STARTS[1] if tier == "quick" else "3 from every start",
                                          len(ATTRS), len(VALUES), ["%s+%s" % rs for rs in ASSIGN_ROUTES])},
+            "count_ladders": {"counts": "every n in 1..40 and %r%s" % (LADDER_BIG, "" if tier == "quick" else " and %r" % LADDER_THOROUGH),
+                              "families": "the %d families of C03's generator (position, separator, first run): %r - n alternating digit / "
+                                          "non-digit runs in the upstream part or in the revision; n hyphens; n colons behind an epoch"
+                                          % (len(ladder_families()), ladder_families()),
+                              "strings": "per (family, n): the valid variants of the generator (base, one run changed, leading zeros, one "
+                                         "more run, -0, 0:) and the base made invalid by one foreign character %r (last; the first two also "
+                                         "first, after the first run, in the middle, before the last character), for the colon family also "
+                                         "a non-numeric epoch - through the acceptance / losslessness / decomposition oracle"
+                                         % (LADDER_FOREIGN,),
+                              "histories": "per (family, n) on the start %r: the laddered part assigned (upstream_version / debian_revision / "
+                                           "debian_version / full_version), assigned again with a foreign character at its end (rejected, "
+                                           "rolled back to the long value), followed by a further assignment" % STARTS[1]},
+            "size_ladder": {"run_lengths": [L for L in SIZE_RUN if tier != "quick" or L <= SIZE_QUICK_MAX],
+                            "what": "one run of exactly L characters (digits, zeros, letters, '~', mixed) as upstream version, as a "
+                                    "component, as revision, as epoch (digits), inside a full version; and the same with one foreign "
+                                    "character or a newline first / inside / last"},
+            "deep_histories": "every history of length <= %d (from %r: %d) over the %d assignments %r from the starts %r, each step "
+                              "checked against the model" % (DEEPN_DEPTH[tier], STARTS[0], DEEPN_DEPTH[tier] - 1, len(DEEPN_OPS), DEEPN_OPS,
+                                                             [STARTS[i] for i in DEEPN_STARTS]),
             "numeric_boundaries": {
                 "digit_runs": digit_runs(tier) if tier == "quick" else
                 "%d runs: 2^k-1, 2^k, 2^k+1 for every k = 7..256, 10^k-1, 10^k for every k = 4..309, 40-, 100-, 300-, 1000-, "
@@ -138,6 +164,10 @@ def assumptions():
             "above INT_MAX, which is a limit of dpkg, so this family is not cross-checked against dpkg); runs stay below 4300 "
             "digits, where Python's own int <-> str conversion stops; their violations carry the prefix numeric/ so that a "
             "magnitude or length guard is told from a character-class slip",
+            "ladders and sizes: the grammar limits neither the number of runs, hyphens or colons nor the length of a run; "
+            "the ladder strings are the ones C03 compares (mc/props/c03.py ladder_variants), regenerated from (family, n, "
+            "variant name, seed) on replay; sizes above 65 537 only in the thorough tier (the model's recogniser is a "
+            "character loop)",
             "component assignment takes any value through str() (lib/debian/debian_support.py __setattr__), so an int n is "
             "the run str(n); the unchanged library accepts v.epoch = 2147483648, v.upstream_version = 2**64 and so on",
             "routes: BaseVersion, NativeVersion, Version (the same class under debian.changelog) and subclasses share the "
@@ -219,6 +249,12 @@ def _units(tier, seed):
         nruns = len(digit_runs(tier))
         out += [{"k": "numeric-assign", "len": 2, "start": si, "attr": ai, "lo": lo, "hi": min(lo + NUM_CHUNK, nruns)}
                 for si in range(len(NUM_STARTS)) for ai in range(len(NUM_ATTRS)) for lo in range(0, nruns, NUM_CHUNK)]
+    # beyond the small scope
+    groups = [LADDER_SMALL[i:i + 10] for i in range(0, 40, 10)] + [[n] for n in ladder_counts(tier)[40:]]
+    out += [{"k": "ladder", "fam": f, "ns": ns} for f in range(len(ladder_families())) for ns in groups]
+    out += [{"k": "size", "pos": pos} for pos in ("upstream", "component", "revision", "epoch", "full")]
+    out += [{"k": "deep", "start": si, "first": []} for si in DEEPN_STARTS]
+    out += [{"k": "deep", "start": si, "first": [i, j]} for si in DEEPN_STARTS for i in range(len(DEEPN_OPS)) for j in range(len(DEEPN_OPS))]
     return out
 
 
@@ -262,6 +298,12 @@ def unit_sweep(part, u, seed):
 
 
 def unit_cost(u, tier):
+    if u["k"] == "ladder":
+        return 200 * max(u["ns"])
+    if u["k"] == "size":
+        return 100000
+    if u["k"] == "deep":
+        return 3 * len(DEEPN_OPS) ** (DEEPN_DEPTH[tier] - 2)
     if u["k"] == "accept":
         return len(u.get("alphabet", SYMBOLS)) ** max(0, u["len"] - len(u["prefix"] or [0, 0]))
     if u["k"] == "sweep":
@@ -576,6 +618,10 @@ def run_history(start, ops, route="Version", setter="setattr"):
 
 def run_unit(u, tier, seed):
     part = core.Part()
+    if u["k"] in ("ladder", "size"):
+        return run_ladder_unit(part, u, tier, seed)
+    if u["k"] == "deep":
+        return run_deep_unit(part, u, tier, seed)
     if u["k"] == "accept":
         return unit_accept(part, u, seed)
     if u["k"] == "sweep":
@@ -813,12 +859,206 @@ def unit_assign(part, u, seed):
     return part
 
 
+# ------------------------------------------------------------------------------------------------
+# beyond the small scope: count ladders over the structure of a version (n runs / dotted components / hyphens / colons,
+# the generator of C03), a size ladder over the length of one run, and deep, narrow assignment histories
+
+LADDER_SMALL = list(range(1, 41))
+LADDER_BIG = [63, 64, 65, 100, 127, 128, 129, 255, 256, 257, 500, 999, 1000, 1001]
+LADDER_THOROUGH = [1025, 2500, 2501, 5000]
+LADDER_FOREIGN = ["_", " ", "\n", "é"]
+SIZE_RUN = [997, 998, 999, 1000, 4095, 4096, 4097, 16383, 16384, 16385, 65535, 65536, 65537, 131071, 131072, 131073, 262143, 262144, 262145]
+DEEPN_OPS = [("epoch", None), ("epoch", "1"), ("upstream_version", "2.0"), ("upstream_version", None), ("upstream_version", "x:y"),
+             ("debian_revision", "1"), ("debian_revision", None), ("full_version", "1\n")]
+SIZE_QUICK_MAX = 65537        # the recogniser of the model reads a string character by character (0.1 s for 262 144)
+DEEPN_DEPTH = {"quick": 5, "thorough": 6}
+DEEPN_STARTS = [0, 1]
+
+
+def ladder_families():
+    from . import c03
+    return c03.LADDER_FAMILIES
+
+
+def ladder_counts(tier):
+    return LADDER_SMALL + LADDER_BIG + ([] if tier == "quick" else LADDER_THOROUGH)
+
+
+def ladder_strings(desc):
+    """-> [(name, string)] of one (family, count): the valid variants of C03's generator and strings made invalid by ONE
+    foreign character (first, after the first run, in the middle, before the last character, last) or a non-numeric epoch"""
+    from . import c03
+    t = c03.translation(desc.get("seed", 0))
+    if desc["ladder"] == "size":
+        L, pos = desc["n"], desc["pos"]
+        runs = {"digits": "1" * L, "zeros": "0" * L, "letters": "a" * L, "tildes": "~" * L, "mixed": ("1a.+~" * (L // 5 + 1))[:L]}
+        out = []
+        for nm, r in runs.items():
+            r = r.translate(t)
+            if pos == "epoch" and nm not in ("digits", "zeros"):
+                continue
+            text = {"upstream": "%s", "component": "1.%s", "revision": "1.0-%s", "epoch": "%s:1.0-1", "full": "1:2.%s-3"}[pos] % r
+            out.append((nm, text))
+            if nm in ("digits", "mixed"):
+                k = len(text) - (2 if pos in ("full",) else 0)
+                out += [(nm + "+foreign-last", text + "_"), (nm + "+newline-last", text + "\n"),
+                        (nm + "+foreign-in-the-run", text[:k - 1] + "_" + text[k - 1:]), (nm + "+foreign-first", "_" + text)]
+        return out
+    valid = c03.ladder_variants(desc["pos"], desc["sep"], desc["start"], desc["n"], t)
+    out = list(valid)
+    base = valid[0][1]
+    first_run_end = 1
+    while first_run_end < len(base) and (base[first_run_end].isdigit() == base[0].isdigit()) and base[first_run_end] not in ":-":
+        first_run_end += 1
+    for i, c in enumerate(LADDER_FOREIGN):
+        c = tr(c, desc.get("seed", 0))
+        out.append(("base+%s-last" % i, base + c))
+        if i < 2:
+            out.append(("base+%s-before-the-last-character" % i, base[:-1] + c + base[-1]))
+            out.append(("base+%s-mid" % i, base[:len(base) // 2] + c + base[len(base) // 2:]))
+            out.append(("base+%s-after-the-first-run" % i, base[:first_run_end] + c + base[first_run_end:]))
+            out.append(("base+%s-first" % i, c + base))
+    if desc["sep"] == ":":
+        out.append(("epoch-not-a-number", "x" + base))
+        out.append(("no-epoch", base.replace(":", ".", 1)))
+    return out
+
+
+def ladder_histories(desc):
+    """assignment histories of one (family, count): the part the ladder is about is assigned (valid), then once more with a
+    foreign character at its end (rejected, rolled back to the long value)"""
+    from . import c03
+    t = c03.translation(desc.get("seed", 0))
+    base = c03.ladder_variants(desc["pos"], desc["sep"], desc["start"], desc["n"], t)[0][1]
+    start = tr(STARTS[1], desc.get("seed", 0))
+    bad = tr("_", desc.get("seed", 0))
+    if desc["pos"] == "revision":
+        val, attr = base[len("1.0-"):], "debian_revision"
+    else:
+        val, attr = (base[2:] if desc["sep"] == ":" else base), "upstream_version"
+    full = ("1:" + base) if ":" not in base else base
+    return [("assign-part", [(attr, val)]),
+            ("assign-part-then-invalid", [(attr, val), (attr, val + bad)]),
+            ("assign-part-then-invalid-then-other", [(attr, val), (attr, val + bad), ("epoch", "7")]),
+            ("assign-part-then-none", [(attr, val), ("upstream_version", None), (attr, val)]),
+            ("assign-full", [("full_version", full)]),
+            ("assign-full-then-invalid", [("full_version", full), ("full_version", full + "\n"), ("debian_revision", None)]),
+            ("assign-old-name", [("debian_version", val)] if attr == "debian_revision" else [("full_version", full), ("epoch", None)])], start
+
+
+def _ladder_pre(desc):
+    if desc["ladder"] == "size":
+        return "size/%s-run/" % desc["pos"]
+    return "ladder/%s/sep-%s-first-%s/" % ("hyphens" if desc["sep"] == "-" else "colons" if desc["sep"] == ":" else "runs-" + desc["pos"],
+                                           desc["sep"], desc["start"])
+
+
+def _shorten(x):
+    x = x if isinstance(x, str) else repr(x)
+    return x if len(x) <= 400 else x[:200] + " ...[%d characters]... " % (len(x) - 400) + x[-200:]
+
+
+def exec_ladder(case):
+    """one string or one history of a ladder / size case -> [(sig, expected, observed)]"""
+    desc = case
+    pre = _ladder_pre(desc)
+    if "hist" in case:
+        hists, start = ladder_histories(desc)
+        ops = dict(hists)[case["hist"]]
+        return [(pre + sig, _shorten(e), _shorten(o)) for sig, e, o in run_history(start, ops)[2]]
+    s = dict(ladder_strings(desc))[case["string"]]
+    return [(pre + sig, _shorten(e), _shorten(o)) for sig, e, o in run_string(s)[0]]
+
+
+def run_ladder_unit(part, u, tier, seed):
+    if u["k"] == "size":
+        descs = [{"ladder": "size", "pos": u["pos"], "n": L, "seed": seed} for L in SIZE_RUN if tier != "quick" or L <= SIZE_QUICK_MAX]
+    else:
+        pos, sep, start = ladder_families()[u["fam"]]
+        descs = [{"ladder": "count", "pos": pos, "sep": sep, "start": start, "n": n, "seed": seed} for n in u["ns"]]
+    case = None
+    for desc in descs:
+        pre = _ladder_pre(desc)
+        for name, s in ladder_strings(desc):
+            bad, cls, nontrivial = run_string(s)
+            part.states += 1
+            part.transitions += 1
+            part.traces += 1
+            part.evaluations += 1
+            part.outcomes["%s/%s" % (pre.split("/")[0], cls)] += 1
+            part.nontrivial += nontrivial
+            case = dict(desc, string=name)
+            for sig, exp, obs in bad:
+                part.violation(pre + sig, case, _shorten(exp), _shorten(obs), rank=1000 + desc["n"])
+        if desc["ladder"] == "count":
+            hists, start = ladder_histories(desc)
+            for name, ops in hists:
+                idx, status, bad, rolled = run_history(start, ops)
+                part.states += 1
+                part.transitions += len(ops)
+                part.traces += 1
+                part.evaluations += 1
+                part.outcomes["ladder/assign/%s/%s" % (name, status if idx == len(ops) - 1 else "stopped-early")] += 1
+                part.nontrivial += 1 if rolled else 0
+                for sig, exp, obs in bad:
+                    part.violation(pre + sig, dict(desc, hist=name), _shorten(exp), _shorten(obs), rank=1000 + desc["n"])
+            part.max_depth = max(part.max_depth, 3)
+    part.extra["%s cases (beyond the small scope)" % ("size-ladder" if u["k"] == "size" else "count-ladder")] += len(descs)
+    part.sample(case)
+    return part
+
+
+def run_deep_unit(part, u, tier, seed):
+    """all histories over DEEPN_OPS of length <= depth that start with u['first'] (the unit without a first pair: lengths 0, 1)"""
+    start = tr(STARTS[u["start"]], seed)
+    ops = [(a, tr(x, seed)) for a, x in DEEPN_OPS]
+    depth = DEEPN_DEPTH[tier] - (1 if u["start"] == 0 else 0)      # the start without epoch and revision: one level less
+    part.max_depth = depth
+    dead = set()
+    first = [ops[i] for i in u["first"]]
+    case = None
+    for length in (range(1, 2) if not first else range(2, depth + 1)):
+        for rest in itertools.product(range(len(ops)), repeat=length - len(first)):
+            if first and any((u["first"] + list(rest))[:k] and tuple((u["first"] + list(rest))[:k]) in dead for k in range(2, length)):
+                continue
+            idxs = u["first"] + list(rest)
+            h = [ops[i] for i in idxs]
+            idx, status, bad, rolled = run_history(start, h)
+            if idx < length - 1 or status == "start":
+                dead.add(tuple(idxs[:idx + 1]))
+                continue
+            part.transitions += 1
+            part.traces += 1
+            part.evaluations += 1
+            part.outcomes["deep/assign/%s/%s" % (h[-1][0], status)] += 1
+            case = {"k": "history", "start": start, "ops": [list(op) for op in h], "family": "deep"}
+            if status == "violation":
+                dead.add(tuple(idxs))
+                for sig, exp, obs in bad:
+                    part.violation("deep/" + sig, case, exp, obs, rank=500 + length)
+                continue
+            if status == "dontcare":
+                dead.add(tuple(idxs))
+                continue
+            part.states += 1
+            if rolled:
+                part.nontrivial += 1
+    part.extra["deep-narrow assignment histories"] += part.traces
+    if case:
+        part.sample(case)
+    return part
+
+
 def _via(route, setter="setattr"):
     tag = "via-%s%s/" % (route, "" if setter == "setattr" else "+" + setter)
     return lambda bad: [(tag + sig, exp, obs) for sig, exp, obs in bad]
 
 
 def replay(case):
+    if "ladder" in case:
+        return exec_ladder(case)
+    if case.get("family") == "deep":
+        return [("deep/" + sig, e, o) for sig, e, o in run_history(case["start"], [tuple(op) for op in case["ops"]])[2]]
     wrap = _numeric if case.get("family") == "numeric" else list
     if case.get("route"):
         wrap = _via(case["route"], case.get("setter", "setattr"))
@@ -829,6 +1069,12 @@ def replay(case):
 
 
 def repro_py(case):
+    if "ladder" in case:
+        if "hist" in case:
+            hists, start = ladder_histories(case)
+            case = {"k": "history", "start": start, "ops": [list(op) for op in dict(hists)[case["hist"]]]}
+        else:
+            case = {"k": "string", "s": dict(ladder_strings(case))[case["string"]]}
     if case["k"] == "string":
         verdict, reason = versyntax.classify(case["s"])
         return ("from debian.debian_support import Version\n"
